@@ -25,10 +25,10 @@ func (u cUnit) String() string {
 }
 
 type cssRun struct {
-	units       []cUnit
-	parseErrAt  int // index of the first unit at which HasParseError() was true, -1 if never
-	endErr      error
-	offsets     []int
+	units      []cUnit
+	parseErrAt int // index of the first unit at which HasParseError() was true, -1 if never
+	endErr     error
+	offsets    []int
 }
 
 func cssParseAll(src []byte, inline bool) *cssRun {
@@ -546,7 +546,7 @@ func c08Work(c *engine.Ctx) {
 func init() {
 	register(&engine.Check{
 		ID: "C08", Level: "exploration",
-		Rule: "well-formed stylesheets = every single and every ordered pair (every third pair in quick) of ~330 top-level items × {adjacent, space, comment between}: rulesets (24 selectors incl. combinators, attribute selectors, functional pseudo-classes, comments) × declaration lists (20 declarations incl. functions, nested parentheses, strings, urls, !important, IE hacks, progid filters; 7 custom-property values incl. braces and semicolons; ';' variants), nested rulesets and at-rules inside rulesets, every block at-rule kind of css/hash.go in three spellings + vendor prefixes × 8 preludes × bodies, statement at-rules, unknown at-rules (token soup), top-level comments and CDO/CDC; inline declaration lists. Expected unit stream (type, lower-cased name) by construction; Values() without whitespace == the source's component tokens (reference tokenizer of C07), whitespace tokens single/non-adjacent/only where the source has whitespace and present where it separates compound selectors or word-like value tokens; custom-property values exact. All byte strings ≤3-4 (4-5) atoms over the CSS alphabets and edit balls around the CSS seeds in both modes: shadow stack of Begin/End units, no unclosed Begin at the EOF report unless a parse error was reported, every reported token occurs in the input in source order",
+		Rule:        "well-formed stylesheets = every single and every ordered pair (every third pair in quick) of ~330 top-level items × {adjacent, space, comment between}: rulesets (24 selectors incl. combinators, attribute selectors, functional pseudo-classes, comments) × declaration lists (20 declarations incl. functions, nested parentheses, strings, urls, !important, IE hacks, progid filters; 7 custom-property values incl. braces and semicolons; ';' variants), nested rulesets and at-rules inside rulesets, every block at-rule kind of css/hash.go in three spellings + vendor prefixes × 8 preludes × bodies, statement at-rules, unknown at-rules (token soup), top-level comments and CDO/CDC; inline declaration lists. Expected unit stream (type, lower-cased name) by construction; Values() without whitespace == the source's component tokens (reference tokenizer of C07), whitespace tokens single/non-adjacent/only where the source has whitespace and present where it separates compound selectors or word-like value tokens; custom-property values exact. All byte strings ≤3-4 (4-5) atoms over the CSS alphabets and edit balls around the CSS seeds in both modes: shadow stack of Begin/End units, no unclosed Begin at the EOF report unless a parse error was reported, every reported token occurs in the input in source order",
 		Assumptions: []string{"'whitespace must be kept' is required only where it separates two compound selectors, two word-like value tokens, or a word-like token and a parenthesis in an at-rule prelude", "after a reported parse error only the conservation clause is checked"},
 		Setup:       c08Setup, Work: c08Work,
 	})
